@@ -172,6 +172,43 @@ def range_name_history(ctx, L, tname):
                 check_value(ctx, L, tname, v)
 
 
+CONST_SOURCES = ["TPM_ALG", "TPM_ST", "TPM_SU", "TPM_CAP", "TPM_CC", "TPM_SE", "TPM_HT", "TPM_ECC_CURVE"]
+
+
+def from_typed_constants(ctx, L, tname):
+    """A typed value may be built from another typed value (README: TPMI_ST_COMMAND_TAG(TPM_ST.NO_SESSIONS), UINT32(12));
+    it must carry the integer with *its own* width, and plain construction afterwards must be unaffected."""
+    T = O.lib_type(tname)
+    p = L.prim(tname)
+    lo, hi = L.limits(tname)
+    w = p["width"]
+    n = 0
+    if lo < 0:
+        return  # signed plain-range types would iterate from their lower limit (see below)
+    for src in CONST_SOURCES:
+        S = O.lib_type(src)
+        # only small constants: a plain-range type looks a *typed* argument up by iterating its range (`x in range(...)` is
+        # linear for non-int x), so e.g. UINT32(TPM_RH.OWNER) would take minutes - slow, but not wrong
+        members = [m for m in L.prim(src).get("members", []) if "value" in m and lo <= m["value"] <= hi and 0 <= m["value"] <= 0xFFFF]
+        for m in members[:: max(1, len(members) // 6)]:
+            v = m["value"]
+            c = getattr(S, m["name"], None)
+            if c is None:
+                continue
+            payload = {"type": tname, "value": v, "from": f"{src}.{m['name']}"}
+            r = ctx.guard(lambda: (lambda x: (int(x), bytes(x.to_bytes()), x == v, hash(x)))(T(c)), f"C16:from-typed:{p['kind']}", payload)
+            if r is None:
+                return
+            n += 1
+            ctx.case((tname, "from", src, m["name"]), True, sample={"type": tname, "built_from": f"{src}.{m['name']}", "value": v} if n == 3 else None)
+            want = v.to_bytes(w, "big", signed=p["signed"])
+            if r[0] != v or r[1] != want or r[2] is not True or r[3] != hash(v):
+                ctx.problem(f"C16:from-typed:{p['kind']}", f"{tname}({src}.{m['name']}) has int {r[0]}, bytes {r[1].hex()} (expected {v}, {want.hex()}), == {r[2]}", payload)
+                return
+            check_value(ctx, L, tname, v)
+    ctx.count("typed-from-typed", n)
+
+
 def _apply(f, a, b):
     try:
         return ("ok", f(a, b))
@@ -230,12 +267,15 @@ def run_shard(ctx):
         else:
             units.append((t, interesting_values(L, t), "boundary"))
         units.append((t, None, "ops"))
+        units.append((t, None, "from-typed"))
         if any("range" in m for m in L.prim(t).get("members", [])):
             units.append((t, None, "names"))
         units.append((t, None, "random"))
     for t, vals, mode in ctx.mine(units):
         if mode == "ops":
             ctx.run_plain(lambda: ops_for_type(ctx, L, t), f"ops:{t}")
+        elif mode == "from-typed":
+            ctx.run_plain(lambda: from_typed_constants(ctx, L, t), f"from-typed:{t}")
         elif mode == "names":
             ctx.run_plain(lambda: range_name_history(ctx, L, t), f"names:{t}")
         elif mode == "random":
